@@ -43,7 +43,7 @@ if __name__=="__main__":
         fams=mod.families("quick" if n==0 else "thorough", rng)
         pool=len(sys.argv)>4 and sys.argv[4]=="pool"
         cfg=mod.dev_cfg(pool) if hasattr(mod,"dev_cfg") else gen.std_cfg(ns=1, usepool=pool, ports=[3001,3002] if pool else [])
-        show(cfg,gen.STD_TREE,[s_ for _,s_ in fams], state=len(sys.argv)>5)
+        show(cfg,gen.STD_TREE,[(s_[-1] if isinstance(s_,tuple) else s_) for _,s_ in fams], state=len(sys.argv)>5)
     if fam=="rand":
         cfg=gen.std_cfg(ns=1)
         show(cfg,gen.STD_TREE,[gen.rand_session(rng,1,steps=rng.choice([6,10,16])) for _ in range(n)])
